@@ -281,9 +281,20 @@ impl C17 {
       out.class("hour_23");
     }
     let t = SolarTime::from_ymd_hms(y as isize, m as usize, d as usize, h as usize, 0, 0);
+    // a[2] == 1: the two hour objects are taken from the hour lists of the day (SixtyCycleDay::get_hours /
+    // LunarDay::get_hours) instead of being constructed from the instant
+    // (slot 0 of the sexagenary list is 23:00 of the previous civil day, i.e. another instant: hours 1..22 only)
+    let listed = case.a.get(2).cloned().unwrap_or(0) == 1 && (1..23).contains(&h);
+    if listed {
+      out.class("hour_objects_taken_from_the_day_lists");
+    }
     let r = guard(|| {
-      let sh = t.get_sixty_cycle_hour();
-      let lh = t.get_lunar_hour();
+      let (sh, lh) = if listed {
+        let day = sd_idx(c, i);
+        (day.get_sixty_cycle_day().get_hours()[((h + 1) / 2) as usize].clone(), day.get_lunar_day().get_hours()[((h + 1) / 2) as usize].clone())
+      } else {
+        (t.get_sixty_cycle_hour(), t.get_lunar_hour())
+      };
       let ld = lh.get_lunar_day();
       (guard(|| (sh.get_nine_star().get_index() as i64, lh.get_nine_star().get_index() as i64)), sh.get_twelve_star().get_index() as i64, lh.get_twelve_star().get_index() as i64, (lh.get_minor_ren().get_index() as i64, ld.get_month() as i64, ld.get_day() as i64))
     });
@@ -396,6 +407,24 @@ impl Prop for C17 {
         // strided walks on fresh threads (see engine::stride_walks)
         stride_walks(env, out, "day", env.tier.pick(1600, 48000) / nshards as u32, 7000 + shard as u64, 0, (crate::model::NDAYS as i64) - 366, 800, &|x| vec![x], &ev);
         stride_walks(env, out, "hour", env.tier.pick(800, 24000) / nshards as u32, 7100 + shard as u64, 0, (crate::model::NDAYS as i64) - 366, 800, &|x| vec![x, (x * 5).rem_euclid(24)], &ev);
+        // hour objects taken from the day's hour lists: solstice days +-1 of every year of the shard, and proptest
+        {
+          let (ylo, yhi) = shard_range(9996, shard, nshards);
+          for y in (ylo as i64 + 2..=yhi as i64 + 1).filter(|y| env.tier == Tier::Thorough || y % 9 == (env.seed % 9) as i64 || SPECIAL_YEARS.contains(y)) {
+            let ts = ensure(y - 1, y + 1);
+            for ti in [0i64, 12] {
+              if let Some(ix) = c.index_of_jdn(ts.get(y, ti).day) {
+                for dd in [-1i64, 0, 1] {
+                  for h in [1i64, 2, 7, 13, 22] {
+                    run_case(env, out, "hour", &Case::ints(&[ix as i64 + dd, h, 1]), &ev);
+                  }
+                }
+              }
+            }
+          }
+          let hi = NDAYS as i64 - 366;
+          prop_run(env, out, "hour", env.tier.pick(8_000, 240_000) / nshards as u32, 7300 + shard as u64, (400i64..hi, 0i64..23).prop_map(|(i, h)| Case::ints(&[i, h, 1])), &ev);
+        }
         // day objects reached by stepping (half of them after the source day's memoised views were read)
         {
           let hi = NDAYS as i64 - 366;
